@@ -108,7 +108,10 @@ func (e *Enc) exec(in ssa.Instruction) {
 	case *ssa.MakeMap:
 		e.execMakeMap(in)
 	case *ssa.MakeChan:
+		sz := e.val(in.Size).T
+		e.oblige("make", e.ordName("make"), tLe("0", sz), in.Pos(), "makechan: size out of range")
 		r := e.newRef(e.cur, "chan")
+		e.assume(tEq(sx("chancap", r), sz))
 		e.vals[in] = Val{T: r}
 	case *ssa.MakeSlice:
 		e.execMakeSlice(in)
@@ -135,7 +138,11 @@ func (e *Enc) exec(in ssa.Instruction) {
 	case *ssa.Select:
 		e.execSelect(in)
 	case *ssa.Send:
-		e.applyAts("send", "", in.Pos(), nil, nil)
+		sa := []Val{e.val(in.Chan), e.val(in.X)}
+		e.atArgTypes = []types.Type{in.Chan.Type(), in.X.Type()}
+		e.applyAts("before send", "", in.Pos(), sa, nil)
+		e.applyAts("send", "", in.Pos(), sa, nil)
+		e.atArgTypes = nil
 	case *ssa.Go:
 		e.execGo(in)
 	case *ssa.Defer:
